@@ -221,8 +221,15 @@ def rebind_clock():
         def __getattr__(self, name):
             return getattr(_time, name)
     tm_shim = _TimeShim("time")
+    # every function of the module that reads the clock when called without an argument answers from the injected clock
     tm_shim.localtime = lambda s=None: _time.localtime(NOW[0] if s is None else s)
+    tm_shim.gmtime = lambda s=None: _time.gmtime(NOW[0] if s is None else s)
+    tm_shim.ctime = lambda s=None: _time.ctime(NOW[0] if s is None else s)
+    tm_shim.asctime = lambda t=None: _time.asctime(_time.localtime(NOW[0]) if t is None else t)
+    tm_shim.strftime = lambda fmt, t=None: _time.strftime(fmt, _time.localtime(NOW[0]) if t is None else t)
     tm_shim.time = lambda: NOW[0]
+    tm_shim.time_ns = lambda: int(NOW[0] * 1_000_000_000)
+    by_function = {getattr(_time, k): getattr(tm_shim, k) for k in ("localtime", "gmtime", "ctime", "asctime", "strftime", "time", "time_ns")}
     n = 0
     for name, mod in list(sys.modules.items()):
         if name == "ascmhl" or name.startswith("ascmhl."):
@@ -233,6 +240,8 @@ def rebind_clock():
                     setattr(mod, k, FakeDT); n += 1
                 elif v is _time:
                     setattr(mod, k, tm_shim); n += 1
+                elif callable(v) and getattr(v, "__module__", None) == "time" and v in by_function:   # from time import ...
+                    setattr(mod, k, by_function[v]); n += 1
     return n
 
 
@@ -375,8 +384,15 @@ class Runner:
 
     def __call__(self, name, args, **kw):
         if self.mode == "in":
-            kw.pop("tz", None)
+            tz = kw.pop("tz", None)
             kw.pop("order", None)
             kw.pop("audit_prefix", None)
+            if tz and tz != os.environ.get("TZ"):
+                old = os.environ.get("TZ", "UTC")
+                set_tz(tz)
+                try:
+                    return run_inproc(name, args, **kw)
+                finally:
+                    set_tz(old)
             return run_inproc(name, args, **kw)
         return run_subproc(name, args, **kw)
